@@ -159,6 +159,9 @@ void buildTree(int ti) {
   // a sibling of the fs root sharing its name as a prefix
   mkdir((P.base + "/c16/cgroup2").c_str(), 0755);
   mkdir((P.base + "/c16/cgroup2/a").c_str(), 0755);
+  // the same tree reachable through a relative cgroup fs root whose text ("b") recurs in cgroup names
+  if (symlink("cg", (P.base + "/c16/b").c_str()) != 0) {
+  }
   g_treeBuilt = ti;
 }
 
@@ -210,6 +213,28 @@ std::string checkResolve(int ti, const std::string& pat, bool* nontrivial) {
       if (!all.insert(r.absolutePath()).second) return "resolveWildcard(\"" + pat + "\") returned duplicates";
   }
   auto want = modelResolve(t, pat);
+  {
+    // relative root: results are mapped back by the same rule
+    Bypass bp;
+    auto& P = Process::get();
+    char cwd[4096];
+    if (getcwd(cwd, sizeof cwd) && chdir((P.base + "/c16").c_str()) == 0) {
+      Oomd::CgroupPath q("b", pat);
+      std::set<std::string> got2;
+      for (auto& r : q.resolveWildcard()) {
+        if (navigational(r.relativePath())) continue;
+        got2.insert(r.relativePath());
+      }
+      if (chdir(cwd) != 0) {
+      }
+      if (got2 != want) {
+        std::string a, b;
+        for (auto& x : got2) a += "\"" + x + "\" ";
+        for (auto& x : want) b += "\"" + x + "\" ";
+        return "tree " + std::to_string(ti) + " through the relative root \"b\": resolveWildcard(\"" + pat + "\") = {" + a + "}, existing matching directories are {" + b + "}";
+      }
+    }
+  }
   if (got != want) {
     std::string a, b;
     for (auto& x : got) a += "\"" + x + "\" ";
